@@ -33,8 +33,7 @@ def frame_census(ctx):
     mi = ctx.repo.modules.get(F)
     bad = []
     if mi is not None:
-        spec = {q: dict(allow_self_rebind=True) for (q, f_, m_) in frames.functions_of(mi) if q.endswith(".__init__")}
-        bad = frames.check_frame(mi, F, spec, allow_self_rebind=False, ignore_roots=("?",)) + frames.memoised(mi, F)
+        bad = frames.check_frame(mi, F, (), self_rebind_in=lambda q: q.endswith(".__init__")) + frames.memoised(mi, F)
     return [Obligation("C16.F1 search/group/span keep no state: no store reaches the pattern object, its class, a module-level "
                        "name or an argument", [], tm.B(not bad), kind="F", text="stores: %s" % bad,
                        meta=dict(function="census", clause="F1", detail=bad))]
